@@ -57,6 +57,7 @@ proof fn lemma_all_live_counts(kd: Map<Bytes, KeyDirEntry>, g: u64, recs: Seq<Re
 }
 
 /// entering the copy loop: the first output data file and its hint file have just been created (empty)
+#[verifier::spinoff_prover]
 proof fn lemma_merge_init(kd0: Map<Bytes, KeyDirEntry>, st0: Map<u64, LogStatistics>, w0: &World, sel: Set<u64>, act: u64, keys: Seq<Bytes>, exact: bool, w: &World)
     requires
         world_wf(w0), index_ok(kd0, w0), stats_rel(st0, kd0, w0, 0, 0, 0, 0, false), exact ==> stats_rel(st0, kd0, w0, 0, 0, 0, 0, true),
@@ -113,6 +114,7 @@ proof fn lemma_merge_next_key(kd0: Map<Bytes, KeyDirEntry>, st0: Map<u64, LogSta
 
 /// one key copied: its record re-written at the end of output file `hi` (w -> w2 covers the data flush and the hint
 /// append), the key directory re-pointed, the output's live counter bumped
+#[verifier::spinoff_prover]
 proof fn lemma_merge_copy(kd0: Map<Bytes, KeyDirEntry>, st0: Map<u64, LogStatistics>, w0: &World, sel: Set<u64>, act: u64, keys: Seq<Bytes>, exact: bool,
                           kd: Map<Bytes, KeyDirEntry>, st: Map<u64, LogStatistics>, w: &World, i: int, hi: u64, w2: &World)
     requires
@@ -233,6 +235,7 @@ proof fn lemma_merge_copy(kd0: Map<Bytes, KeyDirEntry>, st0: Map<u64, LogStatist
 }
 
 /// the current output is full: a fresh output data file and hint file have been created
+#[verifier::spinoff_prover]
 proof fn lemma_merge_rollover(kd0: Map<Bytes, KeyDirEntry>, st0: Map<u64, LogStatistics>, w0: &World, sel: Set<u64>, act: u64, keys: Seq<Bytes>, exact: bool,
                               kd: Map<Bytes, KeyDirEntry>, st: Map<u64, LogStatistics>, w: &World, i: int, hi: u64, w2: &World)
     requires
@@ -268,6 +271,17 @@ proof fn lemma_merge_rollover(kd0: Map<Bytes, KeyDirEntry>, st0: Map<u64, LogSta
     assert forall |g: u64| #[trigger] w2.ever.contains(g) <==> (w0.ever.contains(g) || lo <= g <= nh) by {
         if g != nh { assert(w2.ever.contains(g) == w.ever.contains(g)); }
     }
+    assert forall |f: u64| f <= act implies (#[trigger] w2.data.contains_key(f) == w0.data.contains_key(f)) && (w0.data.contains_key(f) ==> w2.data[f] == w0.data[f]) by {
+        assert(w.data.contains_key(f) == w0.data.contains_key(f));
+    }
+    assert forall |f: u64| f <= act implies (#[trigger] w2.hint.contains_key(f) == w0.hint.contains_key(f)) && (w0.hint.contains_key(f) ==> w2.hint[f] == w0.hint[f]) by {
+        assert(w.hint.contains_key(f) == w0.hint.contains_key(f));
+    }
+    assert forall |g: u64| #[trigger] w2.data.contains_key(g) implies g <= nh by { if g != nh { assert(w.data.contains_key(g)); } }
+    assert forall |f: u64| #[trigger] st.contains_key(f) implies w2.data.contains_key(f) by { assert(w.data.contains_key(f)); }
+    assert forall |k: Bytes| #[trigger] kd.contains_key(k) implies kd[k] == kd0[k] || (lo <= kd[k].fileid <= nh && sel.contains(kd0[k].fileid)) by { }
+    assert forall |j: int| 0 <= j < i implies !sel.contains((#[trigger] kd[keys[j]]).fileid) by { }
+    assert forall |j: int| i <= j < keys.len() implies #[trigger] kd[keys[j]] == kd0[keys[j]] by { }
 }
 
 /// state of the deletion loop of `Writer::merge` after `jj` ids of the ascending enumeration `ids` of `sel`
@@ -301,6 +315,7 @@ proof fn lemma_del_step(st1: Map<u64, LogStatistics>, w1: &World, sel: Set<u64>,
     assert forall |j: int| 0 <= j < jj + 1 implies !w2.data.contains_key(#[trigger] ids[j]) && !w2.hint.contains_key(ids[j]) && !st2.contains_key(ids[j]) by { }
 }
 /// all keys copied, all selected files removed: the invariants of the store hold again
+#[verifier::spinoff_prover]
 proof fn lemma_merge_finish(kd0: Map<Bytes, KeyDirEntry>, st0: Map<u64, LogStatistics>, w0: &World, sel: Set<u64>, act: u64, keys: Seq<Bytes>, exact: bool,
                             kd: Map<Bytes, KeyDirEntry>, st1: Map<u64, LogStatistics>, w1: &World, hi: u64,
                             ids: Seq<u64>, st: Map<u64, LogStatistics>, w: &World)
@@ -315,6 +330,7 @@ proof fn lemma_merge_finish(kd0: Map<Bytes, KeyDirEntry>, st0: Map<u64, LogStati
         forall |g: u64| w.ever.contains(g) ==> g <= hi, act < hi < 0x4000_0000_0000_0000,
         forall |f: u64| sel.contains(f) ==> !w.data.contains_key(f) && !w.hint.contains_key(f),
         forall |f: u64| #[trigger] w.data.contains_key(f) && w0.data.contains_key(f) ==> w.data[f] == w0.data[f],
+        merged_world(w0, w, kd0, kd, sel, act, hi), forall |g: u64| #[trigger] w.data.contains_key(g) ==> g <= hi,
 {
     reveal(merge_state);
     reveal(del_state);
@@ -368,6 +384,35 @@ proof fn lemma_merge_finish(kd0: Map<Bytes, KeyDirEntry>, st0: Map<u64, LogStati
     assert forall |f: u64| #[trigger] w.data.contains_key(f) && w0.data.contains_key(f) implies w.data[f] == w0.data[f] by {
         assert(w0.ever.contains(f));
         assert(w1.data.contains_key(f));
+    }
+    // the facts the recovery theorem needs
+    assert forall |g: u64| #[trigger] w.data.contains_key(g) implies g <= hi by { assert(w1.data.contains_key(g)); }
+    assert forall |g: u64| #[trigger] w0.data.contains_key(g) implies g <= act by { assert(w0.ever.contains(g)); }
+    assert forall |id: u64| id <= act implies (#[trigger] w.data.contains_key(id)) == (w0.data.contains_key(id) && !sel.contains(id)) by {
+        assert(w1.data.contains_key(id) == w0.data.contains_key(id));
+        if w.data.contains_key(id) { assert(w1.data.contains_key(id)); }
+    }
+    assert forall |id: u64| id <= act && #[trigger] w.data.contains_key(id) implies w.data[id] == w0.data[id]
+            && w.hint.contains_key(id) == w0.hint.contains_key(id) && (w0.hint.contains_key(id) ==> w.hint[id] == w0.hint[id]) by {
+        assert(w1.data.contains_key(id));
+        assert(!sel.contains(id));
+        assert(w1.hint.contains_key(id) == w0.hint.contains_key(id));
+        if w1.hint.contains_key(id) { assert(w.hint.contains_key(id)); }
+        if w.hint.contains_key(id) { assert(w1.hint.contains_key(id)); }
+    }
+    assert forall |g: u64| act < g <= hi implies #[trigger] out_ok(kd, w, g) by {
+        assert(out_ok(kd, w1, g));
+        assert(!sel.contains(g));
+        assert(w.data.contains_key(g)); assert(w.hint.contains_key(g));
+    }
+    assert forall |k: Bytes| #[trigger] kd0.contains_key(k) && !sel.contains(kd0[k].fileid) implies kd[k] == kd0[k] by {
+        assert(kd.dom().contains(k)); assert(kd.contains_key(k));
+    }
+    assert forall |k: Bytes| #[trigger] kd0.contains_key(k) && sel.contains(kd0[k].fileid) implies act < kd[k].fileid <= hi by {
+        assert(kd.dom().contains(k)); assert(kd.contains_key(k));
+        assert(keys.to_set().contains(k));
+        let j = choose |j: int| 0 <= j < keys.len() && keys[j] == k;
+        assert(!sel.contains(kd[keys[j]].fileid));
     }
     // hint files
     if hints_ok(w0) {
